@@ -587,7 +587,7 @@ class CallMixin:
                             kwargs[kk] = vv
                     elif isinstance(v, Ref) and s.obj(v).kind in ('symdict', 'smap'):
                         kwargs['**'] = v
-                    elif isinstance(v, Opaque) and v.kind in ('kwargs',):
+                    elif isinstance(v, Opaque) and v.kind in ('kwargs', 'crt_callargs'):
                         kwargs['**'] = v
                     else:
                         raise EngineError(f'**kwargs of {type(v).__name__} at line {e.lineno}')
